@@ -4,13 +4,13 @@ package main
 // compile itself R times) and records output digests.
 
 import (
+	"bytes"
 	"crypto/sha256"
 	"encoding/hex"
 	"encoding/json"
 	"fmt"
 	"io"
 	"math/rand"
-	"bytes"
 	"os"
 	"sort"
 	"strings"
